@@ -42,6 +42,7 @@ type Step struct {
 	Ctor     int      `json:"ctor,omitempty"`     // prov: 1 = through the wrapper constructor of the strategy (NewOpenIDProvider / NewDynamicOpenIDProvider / NewForwardedOpenIDProvider)
 	CORS     int      `json:"cors,omitempty"`     // prov: 0 default CORS policy, 1 caller-supplied *cors.Options, 2 CORS switched off (nil)
 	Cfg      *ProvCfg `json:"cfg,omitempty"`      // prov: the provider's op.Config (nil: the zero configuration, see config_test.go)
+	Sign     *SignSpec `json:"sign,omitempty"`    // prov: the signing key, algorithm and key ID of the provider's storage (nil: p256a / ES256 / "sig1", as provider 0)
 	// client-side constructors
 	P      int `json:"p,omitempty"`      // provider the instance talks to (mod number of providers)
 	Client int `json:"client,omitempty"` // 0: the package default client; 1..2: caller-supplied client #n (shared by every instance that names it)
@@ -125,6 +126,9 @@ func genOrder(t *rapid.T) Case {
 			if rapid.IntRange(0, 5).Draw(t, "owncfg") > 0 {
 				s.Cfg = genProvCfg(t, "cfg-")
 			}
+			if rapid.IntRange(0, 3).Draw(t, "ownsign") > 0 {
+				s.Sign = genSign(t, "sign-", "ES256")
+			}
 		case "issuer_fn":
 			genIssuer(t, &s, false)
 		case "rp_oidc", "rp_oauth", "rs", "te", "keyset", "discover":
@@ -174,6 +178,9 @@ type provInst struct {
 	disc0    string            // the same, never updated
 	routes   map[string]int    // status of a GET on every path of the probe universe right after construction
 	tok      *tokSet
+	sign     vkit.SignKeySpec // what the provider's storage signs with and publishes
+	// keyProblem: why a token the provider issued at the latest probe did not verify with the key set it published ("" = it did)
+	keyProblem string
 }
 
 type rpInst struct {
@@ -223,6 +230,9 @@ type orderEnv struct {
 }
 
 var origDefaultClient = httphelper.DefaultHTTPClient
+
+// defaultSign: the signing configuration of provider 0, of the closing provider and of every provider step without one of its own
+var defaultSign = vkit.SignKeySpec{KeyName: "p256a", Alg: "ES256", KID: "sig1"}
 
 func (e *orderEnv) clientOf(i int) *http.Client {
 	if i <= 0 || i > len(e.supplied) {
@@ -294,10 +304,11 @@ func (e *orderEnv) newProvider(s Step) (*provInst, error) {
 	if p.router != "legacy" {
 		p.router = "provider"
 	}
-	p.store = vkit.NewStore(orderClients(), vkit.SignKeySpec{KeyName: "p256a", Alg: "ES256", KID: "sig1"},
+	p.sign = s.Sign.spec(defaultSign)
+	p.store = vkit.NewStore(orderClients(), p.sign,
 		vkit.StorePolicy{ExtraAudience: []string{"api", "apijwt"}, TE: vkit.TEPolicy{DefaultType: "access"}})
 	p.store.NoJournal = true
-	opts := baseOpts("ES256")
+	opts := baseOpts(p.sign.Alg)
 	legacyEP := vkit.PristineEndpoints()
 	names := make([]string, 0, len(s.EP))
 	for n := range s.EP {
@@ -407,6 +418,13 @@ func (e *orderEnv) tokenOf(p *provInst) (*tokSet, string) {
 		return nil, m
 	}
 	p.tok = &ts
+	// the ID token of the real flow verifies with the key set the provider publishes
+	if k := p.ag.Keys(); k.Success() && strings.Count(ts.IDT, ".") == 2 {
+		if why := verifiesWithKeySet(k.Body, ts.IDT); why != "" {
+			p.keyProblem = fmt.Sprintf("the ID token of a code flow on provider %d just now: %s", p.idx, why)
+		}
+		e.res.Label("own-keys:id-token-checked")
+	}
 	return p.tok, ""
 }
 
@@ -511,6 +529,27 @@ func (e *orderEnv) judge(si int, s Step, created *provInst, last bool) {
 			e.res.Label("behaviour-changed:earlier-provider-light")
 			add("C20:provider-behaviour-changed-by:"+s.K, fmt.Sprintf("provider %d answers differently than right after its construction: %s", p.idx, d))
 		}
+	}
+
+	// a token a provider issues NOW verifies with the key set that provider publishes NOW, whichever providers signed before
+	// it under whatever key IDs (asked of every live provider after every step, the one built just now included)
+	for _, p := range e.provs {
+		if p.keyProblem == "" {
+			continue
+		}
+		if strings.HasPrefix(p.keyProblem, "unavailable:") {
+			e.res.Label("own-keys:unavailable")
+			continue
+		}
+		var others []string
+		for _, q := range e.provs {
+			if q != p {
+				others = append(others, fmt.Sprintf("provider %d: %s", q.idx, signName(q.sign)))
+			}
+		}
+		e.res.Label("behaviour-changed:token-not-verifiable-with-own-keys")
+		add(fpNotOwnKeys, fmt.Sprintf("provider %d (storage signs with %s; the other providers of the process: %s): %s", p.idx, signName(p.sign), strings.Join(others, "; "), p.keyProblem))
+		p.keyProblem = ""
 	}
 
 	// behaviour of every provider built before this step must be what it was right after its construction
@@ -717,7 +756,7 @@ func epNames(ep map[string]vkit.EndpointSpec) []string {
 func describeStep(s Step) string {
 	switch s.K {
 	case "prov":
-		return fmt.Sprintf("NewProvider %s router, endpoint options %v bulk=%v, issuer %s, ctor=%d cors=%d, config %s", s.Router, epNames(s.EP), s.Bulk, specOf(s, "static"), s.Ctor, s.CORS, describeCfg(s.Cfg))
+		return fmt.Sprintf("NewProvider %s router, endpoint options %v bulk=%v, issuer %s, ctor=%d cors=%d, config %s, signing %s", s.Router, epNames(s.EP), s.Bulk, specOf(s, "static"), s.Ctor, s.CORS, describeCfg(s.Cfg), signName(s.Sign.spec(defaultSign)))
 	case "issuer_fn":
 		return "issuer function " + specOf(s, "").String()
 	case "rp_oidc", "rp_oauth", "rs", "te", "keyset", "discover":
@@ -789,7 +828,7 @@ func (e *orderEnv) newRP(s Step) (*rpInst, error) {
 	if s.Opt&4 == 4 {
 		opts = append(opts, rp.WithSigningAlgsFromDiscovery())
 	} else {
-		opts = append(opts, rp.WithVerifierOpts(rp.WithSupportedSigningAlgorithms("ES256")))
+		opts = append(opts, rp.WithVerifierOpts(rp.WithSupportedSigningAlgorithms(p.sign.Alg)))
 	}
 	scopes := []string{"openid", "profile", "offline_access"}
 	e.scopes = append(e.scopes, scopes)
@@ -908,7 +947,7 @@ func (e *orderEnv) doStep(s Step) (created *provInst, problem string, usedClient
 			if m != "" {
 				return nil, m, s.Client
 			}
-			jws, err := jose.ParseSigned(t.IDT, []jose.SignatureAlgorithm{jose.ES256})
+			jws, err := jose.ParseSigned(t.IDT, []jose.SignatureAlgorithm{jose.SignatureAlgorithm(p.sign.Alg)})
 			if err != nil {
 				return nil, "parse: " + err.Error(), s.Client
 			}
@@ -1157,6 +1196,15 @@ func runOrder(c Case) *vkit.Result {
 			if s.K == "prov" {
 				res.Label(fmt.Sprintf("provider-cors:%d", s.CORS), fmt.Sprintf("provider-ctor:%d", s.Ctor))
 				res.Label(s.Cfg.labels("provider-config")...)
+				if created != nil {
+					var earlier []vkit.SignKeySpec
+					for _, q := range e.provs {
+						if q != created {
+							earlier = append(earlier, q.sign)
+						}
+					}
+					res.Label("provider-signing:"+signRelation(created.sign, earlier), "provider-signing-alg:"+created.sign.Alg)
+				}
 				cfgKeys[s.Cfg.key()]++
 				provSteps++
 				if s.CORS == 0 && s.Router != "legacy" && customCORS {
@@ -1229,7 +1277,7 @@ func runOrder(c Case) *vkit.Result {
 func stepKey(s Step) string {
 	switch s.K {
 	case "prov":
-		return fmt.Sprintf("prov(%s,%v,%v,%s%v,%d,%d,%s)", s.Router, epNames(s.EP), s.Bulk, s.Iss, s.Hdrs, s.Ctor, s.CORS, s.Cfg.key())
+		return fmt.Sprintf("prov(%s,%v,%v,%s%v,%d,%d,%s,%s)", s.Router, epNames(s.EP), s.Bulk, s.Iss, s.Hdrs, s.Ctor, s.CORS, s.Cfg.key(), signName(s.Sign.spec(defaultSign)))
 	case "issuer_fn":
 		return fmt.Sprintf("issuer_fn(%s%v,%s,%v)", s.Iss, s.Hdrs, s.Path, s.Insecure)
 	case "rp_oidc", "rp_oauth", "rs", "te", "keyset", "discover":
